@@ -8,10 +8,10 @@
 package c04
 
 import (
-	"os"
 	"encoding/gob"
 	"encoding/json"
 	"fmt"
+	"os"
 	"reflect"
 	"runtime"
 	"runtime/metrics"
@@ -238,9 +238,9 @@ const (
 	allocBound   = 256 << 20
 	allocPerByte = 16 << 10
 	// second rule: above suspiciousAlloc the memory the decoded value retains is measured exactly
-	suspiciousAlloc  = 16 << 20
-	retainedBound    = 8 << 20
-	retainedPerByte  = 1 << 10
+	suspiciousAlloc = 16 << 20
+	retainedBound   = 8 << 20
+	retainedPerByte = 1 << 10
 )
 
 // "time proportional to the input", in simulated time: a decode may execute at
@@ -499,6 +499,20 @@ func followUps(c *core.Ctx, e *entry, input []byte, val any) {
 			}
 		}
 	}
+	// inspected: a list the value holds can be asked about its own members (first and last of each
+	// list, the lists found through the value's fields up to three levels down)
+	if len(input) <= compareUpTo {
+		for _, l := range listsOf(reflect.ValueOf(val), 0, nil) {
+			l := l
+			if !run("followup:Contains(own member)", func() {
+				_ = l.Contains(l[0])
+				_ = l.Contains(l[len(l)-1])
+				_ = l.ItemsMatch(l[len(l)/2])
+			}) {
+				return
+			}
+		}
+	}
 	// quick tier: the package-level follow-ups above already reach the value's own encoders, so
 	// the per-method pass only calls the cheap accessors; the encoders' method forms
 	// (MarshalJSON, MarshalBinary, GobEncode, MarshalText) run in the thorough tier and in replays
@@ -517,6 +531,38 @@ func followUps(c *core.Ctx, e *entry, input []byte, val any) {
 			return
 		}
 	}
+}
+
+// listsOf collects the non-empty item lists a decoded value holds (at most 12).
+func listsOf(v reflect.Value, depth int, acc []ap.ItemCollection) []ap.ItemCollection {
+	if !v.IsValid() || depth > 3 || len(acc) >= 12 {
+		return acc
+	}
+	if v.Type() == reflect.TypeOf(ap.ItemCollection(nil)) {
+		if l := v.Interface().(ap.ItemCollection); len(l) > 0 {
+			acc = append(acc, l)
+			for _, m := range l[:min(len(l), 4)] {
+				acc = listsOf(reflect.ValueOf(m), depth+1, acc)
+			}
+		}
+		return acc
+	}
+	switch v.Kind() {
+	case reflect.Ptr, reflect.Interface:
+		if !v.IsNil() {
+			acc = listsOf(v.Elem(), depth, acc)
+		}
+	case reflect.Struct:
+		for i := 0; i < v.NumField(); i++ {
+			if f := v.Field(i); f.CanInterface() {
+				switch f.Kind() {
+				case reflect.Slice, reflect.Ptr, reflect.Interface, reflect.Struct:
+					acc = listsOf(f, depth+1, acc)
+				}
+			}
+		}
+	}
+	return acc
 }
 
 // ---------------------------------------------------------------- seeded runs
